@@ -36,6 +36,7 @@ class WritePlan:
         self.raw_fail = {int(k): v for k, v in (raw_fail or {}).items()}
         self.raw_short = {int(k): int(v) for k, v in (raw_short or {}).items()}
         self.close_fail = close_fail
+        self.capacity = None  # disk_full: bytes the device still accepts; afterwards every raw write fails (persistently)
         self.fired = []  # (kind, k)
 
     @classmethod
@@ -51,12 +52,14 @@ class WritePlan:
                 plan.raw_short[int(f["k"])] = int(f["n"])
             elif kind == "close_fail":
                 plan.close_fail = f.get("errno", "EIO")
+            elif kind == "disk_full":
+                plan.capacity = int(f["capacity"])
             else:
                 raise ValueError(f"not a write-side fault: {kind}")
         return plan
 
     def any_failing(self):
-        return bool(self.text_fail or self.raw_fail or self.close_fail)
+        return bool(self.text_fail or self.raw_fail or self.close_fail or self.capacity is not None)
 
 
 def _oserror(errname, path):
@@ -93,6 +96,15 @@ class SimRawW(io.RawIOBase):
             disk.log("rwrite_fail", self.path, hid=self.hid, k=k, n=len(data))
             raise _oserror(plan.raw_fail[k], self.path)
         n = len(data)
+        if plan is not None and plan.capacity is not None:
+            left = plan.capacity - self.pos
+            if left <= 0:
+                # a full disk stays full: this and every later write (incl. the flush at close) fails
+                if ("disk_full", 0) not in plan.fired:
+                    plan.fired.append(("disk_full", 0))
+                disk.log("rwrite_fail", self.path, hid=self.hid, k=k, n=len(data))
+                raise _oserror("ENOSPC", self.path)
+            n = min(n, left)
         if plan is not None and k in plan.raw_short and n > 1:
             n = max(1, min(n - 1, plan.raw_short[k]))
             plan.fired.append(("raw_short_write", k))
